@@ -151,7 +151,8 @@ def bounded(ctx, b):
         eol = rng.choice(["\n", "\n", "\r\n", "\r"])          # the line terminators text files come with
         webvtt = "\n".join(vt).replace("\n", eol)
         srt = "\n".join(f"{j + 1}\n00:00:0{j + 1},000 --> 00:00:0{j + 2},000\n" + "\n".join(lines) + "\n" for j, lines in enumerate(cues))
-        mdvd = "\n".join(f"{{{25 * (j + 1)}}}{{{25 * (j + 2)}}}" + "|".join(lines) for j, lines in enumerate(cues)) + "\n"
+        # (every other document opens with a cue at frame 0; its text may be a number)
+        mdvd = "\n".join(f"{{{25 * (j + i % 2)}}}{{{25 * (j + 2)}}}" + "|".join(lines) for j, lines in enumerate(cues)) + "\n"
         srt, mdvd = srt.replace("\n", eol), mdvd.replace("\n", eol)
         docs = {"dfxp": (DFXPReader, dfxp, "en"), "sami": (SAMIReader, sami, "en-US"), "webvtt": (WebVTTReader, webvtt, "en-US"),
                 "srt": (SRTReader, srt, "en-US"), "microdvd": (MicroDVDReader, mdvd, "und")}
@@ -246,7 +247,8 @@ def bounded_webvtt_tags(ctx, b):
     tags, and unknown tags whose names extend a known one (they stay literal)"""
     r = WebVTTReader()
     known = ["c", "i", "b", "u", "ruby", "rt", "lang"]
-    unknown = ["cat", "br", "b-roll", "v-neck", "i/o", "c#", "u+1", "rt:x", "vv", "langx", "img"]
+    # (tag names are case-sensitive in WebVTT: <I>, <B>, <V Bob> are not cue tags and stay literal)
+    unknown = ["cat", "br", "b-roll", "v-neck", "i/o", "c#", "u+1", "rt:x", "vv", "langx", "img", "I", "B", "U", "C", "Ruby", "RT", "LANG", "V"]
     suffixes = ["", ".x", ".x.y", " Bob", ".x Bob", ".x.y Bob", "\tBob"]
     for name in known + unknown + ["v"]:
         for suf in suffixes:
